@@ -371,7 +371,8 @@ def C06_dispatch(ctx=None):
         if isinstance(n, ast.Tuple) and len(n.elts) == 4 and isinstance(n.elts[0], ast.Constant) and isinstance(n.elts[2], ast.Name) and \
                 isinstance(n.elts[3], ast.Name) and n.elts[3].id == 'SelectorPattern':
             table[n.elts[0].value] = n.elts[2].id
-    want = {'id': 'PAT_ID', 'class': 'PAT_CLASS', 'pseudo_dir': 'PAT_PSEUDO_DIR', 'pseudo_lang': 'PAT_PSEUDO_LANG', 'pseudo_contains': 'PAT_PSEUDO_CONTAINS'}
+    want = {'id': 'PAT_ID', 'class': 'PAT_CLASS', 'pseudo_dir': 'PAT_PSEUDO_DIR', 'pseudo_lang': 'PAT_PSEUDO_LANG', 'pseudo_contains': 'PAT_PSEUDO_CONTAINS',
+            'tag': 'PAT_TAG', 'pseudo_class': 'PAT_PSEUDO_CLASS'}
     ok2 = all(table.get(k) == v for k, v in want.items()) and all(
         getattr(PT, v).pattern == getattr(__import__('soupsieve.css_parser', fromlist=['x']), v) and getattr(PT, v).flags & (_re.I | _re.X) == (_re.I | _re.X)
         for v in want.values())
